@@ -80,6 +80,8 @@ def parseDump (obs : String) : Dump :=
     memAt := (get fs "ntf").map (fun x => match x.splitOn ":" with | [_, _, _, _, m] => nat! m | _ => 0),
     pres := get1 fs "pres", pbest := nat! (get1 fs "pbest"), pbl := (get fs "pbl").map parseNode,
     pseen := nat! (get1 fs "pseen"),
+    cs := get1 fs "cstip" != "", csbyh := (get fs "csbyh").map nat!, csbad := nat! (get1 fs "csbad"),
+    cstip := if get1 fs "cstip" == "E" || get1 fs "cstip" == "" then none else some (parseNode (get1 fs "cstip")),
     storedAt := (get fs "ntf").map (fun x => match x.splitOn ":" with | ["D", _, _, _, st] => st == "1" | _ => false),
     pre := (get fs "pre").map (fun x => match x.splitOn ":" with | [v, h, i] => (v == "1", nat! h, nat! i) | _ => (false, 0, 0)) }
 
